@@ -46,6 +46,8 @@ pub struct GenCfg {
     pub hints: Vec<Hint>,
     /// about 1 in 16 chunk sizes is replaced by a size near usize::MAX / usize::MAX/2
     pub huge_chunks: bool,
+    /// every second chunk size (instead of one in 16) is one of the boundary sizes
+    pub huge_often: bool,
     /// smallest generated chunk size (1, or 0 where zero sizes are part of the domain)
     pub min_chunk: usize,
     /// adaptor kinds: pull 0..len elements before adapting
@@ -54,13 +56,24 @@ pub struct GenCfg {
     pub unwind_pull: bool,
     /// ranges: occasionally empty / inverted ranges and ranges in the upper half of usize
     pub odd_ranges: bool,
+    /// size classes: 0 = every case is small (`max_len`); L > 0 = about one case in L is *medium* (up to 300
+    /// elements, chunk sizes and capacities to match) and one in 4L *large* (up to 9000 elements): fast paths
+    /// behind a size threshold, buffers that reallocate, long chunk pulls
+    pub large: u32,
+    /// about one case in four runs the same operation list on every thread (symmetric workers)
+    pub symmetric: bool,
+    /// E1: about one case in 32 lets waiting threads poll 40 .. 6000 more times before they are descheduled
+    pub long_spins: bool,
+    /// with a fault: in every second case the panicking thread catches the panic and goes on with its next operation
+    pub keep_going: bool,
 }
 
 impl GenCfg {
     pub fn base(kinds: &[Kind]) -> GenCfg {
         GenCfg {
             kinds: kinds.to_vec(),
-            layouts: vec![Layout::Tracked],
+            // consuming kinds: one case in four over zero-sized elements (counted, not identified)
+            layouts: vec![Layout::Tracked, Layout::Tracked, Layout::Tracked, Layout::Zst],
             max_len: 12,
             min_threads: 1,
             max_threads: 4,
@@ -89,10 +102,15 @@ impl GenCfg {
             extra_cap: false,
             hints: vec![Hint::Exact, Hint::Inexact, Hint::Unbounded],
             huge_chunks: false,
+            huge_often: false,
             min_chunk: 1,
             pre_pulls: false,
             unwind_pull: false,
             odd_ranges: true,
+            large: 64,
+            symmetric: true,
+            long_spins: true,
+            keep_going: true,
         }
     }
 }
@@ -131,6 +149,19 @@ fn take_of(raw: u16, n: usize) -> usize {
     }
 }
 
+/// `take` of a chunk pull: how many items are taken by `next()` and what happens to the rest / how everything
+/// is consumed (see `interp::decode_take`); about half of the uses are the plain ones
+fn chunk_take_of(raw: u16, n: usize) -> usize {
+    if raw >= 0x8000 {
+        let m = if raw & 0x10 == 0 { 0 } else { ((raw >> 5) & 3) as usize };
+        usize::MAX - m
+    } else {
+        let k = scale(raw << 1, 0, n.saturating_sub(1));
+        let mode = if raw & 0x10 == 0 { 0 } else { ((raw >> 5) & 7) as u8 };
+        crate::interp::encode_take(k.min(0xffff), mode)
+    }
+}
+
 fn how_of(sel: u8, raw: u16, len: usize, composite_ok: bool, only_composite: bool) -> How {
     let n = scale(raw, 1, len + 3);
     // chunk size 1 takes a different path in for_each / fold: make it frequent
@@ -157,11 +188,18 @@ fn how_of(sel: u8, raw: u16, len: usize, composite_ok: bool, only_composite: boo
 }
 
 fn chunk_size(raw: u16, len: usize, cfg: &GenCfg) -> usize {
-    if cfg.huge_chunks && raw & 0xF == 0xF {
-        return match (raw >> 4) % 4 {
-            0 => usize::MAX,
-            1 => usize::MAX - 1,
-            2 => usize::MAX / 2 + 1,
+    if cfg.huge_chunks && (raw & 0xF == 0xF || (cfg.huge_often && raw & 1 == 1)) {
+        // also usize::MAX / k: k threads adding that much overflow together although no two of them do
+        return match (raw >> 4) % 12 {
+            0 | 1 => usize::MAX,
+            2 => usize::MAX - 1,
+            3 => usize::MAX / 2 + 1,
+            4 => usize::MAX / 2,
+            5 => usize::MAX / 3 + 1,
+            6 => usize::MAX / 4 + 1,
+            7 => usize::MAX / 4,
+            8 => (1usize << 62) - 1,
+            9 => 1usize << 63,
             _ => usize::MAX - len,
         };
     }
@@ -176,14 +214,14 @@ fn resolve(op: &RawOp, len: usize, cfg: &GenCfg) -> Op {
             let n = chunk_size(n, len, cfg);
             Op::Chunk {
                 n,
-                take: take_of(t, n),
+                take: chunk_take_of(t, n),
             }
         }
         RawOp::BufNew(n) => Op::BufNew {
             n: chunk_size(n, len, cfg),
         },
         RawOp::BufNext(t) => Op::BufNext {
-            take: take_of(t, len + 3),
+            take: chunk_take_of(t, len + 3),
         },
         RawOp::Len => Op::Len,
         RawOp::HasMore => Op::HasMore,
@@ -203,7 +241,7 @@ fn resolve(op: &RawOp, len: usize, cfg: &GenCfg) -> Op {
                     let n = scale(a, 0, len + 3);
                     Op::LlFetchN {
                         n,
-                        take: take_of(b, n),
+                        take: chunk_take_of(b, n),
                     }
                 }
                 2 => Op::LlProgress {
@@ -428,9 +466,26 @@ fn range_end_of(kind: Kind, raw: &RawCase, cfg: &GenCfg, _len: usize) -> Option<
     }
 }
 
+/// 0 small, 1 medium, 2 large
+fn size_class(raw: &RawCase, cfg: &GenCfg) -> u8 {
+    if cfg.large == 0 {
+        return 0;
+    }
+    match (raw.vseed >> 4) % (4 * cfg.large as u64) {
+        0 => 2,
+        1..=4 => 1,
+        _ => 0,
+    }
+}
+
 fn build_case(raw: &RawCase, cfg: &GenCfg) -> Case {
     let kind = cfg.kinds[raw.kind];
-    let mut len = scale(raw.len, 0, cfg.max_len);
+    let class = size_class(raw, cfg);
+    let mut len = match class {
+        0 => scale(raw.len, 0, cfg.max_len),
+        1 => scale(raw.len, 0, 300),
+        _ => scale(raw.len, 0, 9000),
+    };
     if kind.is_array() {
         len = nearest_arr_len(len);
     }
@@ -453,8 +508,8 @@ fn build_case(raw: &RawCase, cfg: &GenCfg) -> Case {
         for t in threads.iter_mut() {
             for o in t.iter_mut() {
                 match o {
-                    Op::BufNew { n } if *n > 4096 => *n = 1 + (*n % 61),
-                    Op::Drain(How::Buf(n)) | Op::Drain(How::ForEach(n)) | Op::Drain(How::EnumForEach(n)) | Op::Drain(How::Fold(n)) if *n > 4096 => *n = 1 + (*n % 61),
+                    Op::BufNew { n } if *n > 20_000 => *n = 1 + (*n % 61),
+                    Op::Drain(How::Buf(n)) | Op::Drain(How::ForEach(n)) | Op::Drain(How::EnumForEach(n)) | Op::Drain(How::Fold(n)) if *n > 20_000 => *n = 1 + (*n % 61),
                     _ => {}
                 }
             }
@@ -488,6 +543,12 @@ fn build_case(raw: &RawCase, cfg: &GenCfg) -> Case {
         let nt = threads.len();
         for (i, o) in raw.extra.iter().enumerate() {
             threads[i % nt].push(resolve(o, len, cfg));
+        }
+    }
+    if cfg.symmetric && threads.len() >= 2 && raw.extra_cap & 0x30 == 0x30 {
+        let t0 = threads[0].clone();
+        for t in threads.iter_mut().skip(1) {
+            *t = t0.clone();
         }
     }
     if cfg.unwind_pull && threads.len() >= 2 && raw.extra_cap & 2 == 2 {
@@ -530,7 +591,16 @@ fn build_case(raw: &RawCase, cfg: &GenCfg) -> Case {
         len,
         range_start: range_start_of(kind, raw, cfg, len),
         range_end: range_end_of(kind, raw, cfg, len),
-        extra_cap: if cfg.extra_cap { (raw.extra_cap % 8) as usize } else { 0 },
+        // spare capacity: a few slots, or (as after pushes into a growing Vec) as much again / three times as much
+        extra_cap: if cfg.extra_cap {
+            match raw.extra_cap % 8 {
+                6 => len,
+                7 => 3 * len + 5,
+                k => k as usize,
+            }
+        } else {
+            0
+        },
         pre: if cfg.pre_pulls && kind.adaptor() && raw.extra_cap & 1 == 1 { scale(raw.range_start, 0, len) } else { 0 },
         vseed: raw.vseed,
         threads,
@@ -538,5 +608,11 @@ fn build_case(raw: &RawCase, cfg: &GenCfg) -> Case {
         freeze,
         fault,
         terminal,
+        keep_going: cfg.keep_going && raw.fault.is_some() && raw.extra_cap & 0x40 != 0,
+        spin: if cfg.long_spins && cfg.sched_len > 0 && (raw.vseed >> 7) % 32 == 5 {
+            [40usize, 300, 1100, 2300, 6000][(raw.vseed % 5) as usize]
+        } else {
+            0
+        },
     }
 }
